@@ -159,16 +159,19 @@ Fixpoint collectS (P : stmt -> bool) (s : stmt) : list stmt :=
   | _ => []
   end.
 Definition collectL (P : stmt -> bool) (l : list stmt) : list stmt := flat_map (collectS P) l.
-Definition fault_violations (strict : bool) (N : net) : list (pid * stmt) :=
+Definition violations_by (P : bool -> stmt -> bool) (N : net) : list (pid * stmt) :=
   flat_map (fun i => map (fun s => (i, s))
-              (collectL (fault_ok strict (quiet_exit (info N i))) (body (info N i)) ++
-               collectL (fault_ok strict (exit_cancel (info N i))) (finally (info N i))))
+              (collectL (P (quiet_exit (info N i))) (body (info N i)) ++
+               collectL (P (exit_cancel (info N i))) (finally (info N i))))
            (seq 0 (nprocs N)).
+Definition fault_violations (strict : bool) (N : net) : list (pid * stmt) := violations_by (fault_ok strict) N.
 
-(* the kind of each such operation, for pinning the exceptions *)
+(* the operations whose error path does cancel but may have to wait for another goroutine
+   first, with their kinds (for pinning the exceptions) *)
 Definition kind_of (s : stmt) : iokind := match s with IoE k _ | Io k => k | _ => Unknown end.
 Definition fault_waits (N : net) : list (pid * iokind) :=
-  map (fun x => (fst x, kind_of (snd x))) (fault_violations true N).
+  map (fun x => (fst x, kind_of (snd x)))
+      (violations_by (fun qe s => fault_ok true qe s || negb (fault_ok false qe s)) N).
 
 (* how many tied operations and how many calls of ctx.cancel the net has (translator sanity,
    compared with independent counts on the source) *)
